@@ -17,7 +17,7 @@ RULE = ("Relations only (Fractions; the reference quantizer of C01 is not used):
         "with boundary-constructed inputs. Non-trivial = input not a whole number of LSBs (ties counted separately) or, for idempotence, a boundary/negative code; "
         "distinct = distinct (format, mode, input) keys.")
 ASSUMPTIONS = ['inputs exactly representable as doubles within the core domain', 'ROUND/OVERFLOW of the reference model are not consulted by these checks']
-EXHAUSTIVE = True
+EXHAUSTIVE = False    # the whole quantifier is not enumerated; complete sub-domains are listed in EXHAUSTIVE_SUBDOMAINS
 EXHAUSTIVE_SUBDOMAINS = {'quick': ['quarter-LSB grid, n_word<=6, all n_frac/modes: direction, bound, ties, monotonicity, idempotence of every code'],
                          'thorough': ['same for n_word<=8']}
 REQUIRED_CLASSES = {'tie': 500, 'inexact': 500, 'idem': 500, 'mono-pairs': 500, 'int-carrier': 500}
